@@ -8,6 +8,7 @@ package c03
 // AllowOperation / Capabilities on generated requests. One line per operation, see lean/Driver/ACL.lean.
 
 import (
+	"encoding/json"
 	"context"
 	"sort"
 	"strconv"
@@ -79,6 +80,8 @@ func encAny(x any) string {
 		return "i" + strconv.Itoa(t)
 	case int64:
 		return "i" + strconv.FormatInt(t, 10)
+	case json.Number:
+		return "i" + t.String()
 	case bool:
 		if t {
 			return "bt"
@@ -334,8 +337,15 @@ func (r request) build(nilWhenEmpty bool) *logical.Request {
 	req := &logical.Request{Path: r.path, Operation: logical.Operation(r.op)}
 	if len(r.keys) > 0 || !nilWhenEmpty {
 		req.Data = make(map[string]any, len(r.keys))
+		// numbers: a request that came in over the API carries json.Number (the body is decoded with UseNumber), an
+		// internal caller a Go int; both forms are driven (chosen by a parity of the request, so a replay is exact)
+		jn := (len(r.path)+len(r.keys))%2 == 0
 		for i, k := range r.keys {
-			req.Data[k] = r.vals[i].goVal()
+			if v := r.vals[i]; jn && v.kind == 'i' {
+				req.Data[k] = json.Number(strconv.Itoa(v.i))
+			} else {
+				req.Data[k] = v.goVal()
+			}
 		}
 	}
 	if r.wrap != nil {
